@@ -4,6 +4,10 @@ go 1.26.8
 
 require github.com/dapr/kit v0.0.0
 
-require github.com/tidwall/transform v0.0.0-20201103190739-32f242e2dbde // indirect
+require (
+	github.com/sirupsen/logrus v1.9.3 // indirect
+	github.com/tidwall/transform v0.0.0-20201103190739-32f242e2dbde // indirect
+	golang.org/x/sys v0.21.0 // indirect
+)
 
 replace github.com/dapr/kit => /repo
